@@ -79,8 +79,9 @@ theorem createSpec_noAddr (sh : Shape) (w : World) (n : Nat) (st : St) (r : Res)
 
 theorem fillFailed_congr (evs : List Ev) (r r' : Res) : fillFailed ⟨evs, r⟩ = fillFailed ⟨evs, r'⟩ := rfl
 
-theorem struct_run {inp : Input} {obs : Obs} (h : run inp = some obs) : structOk inp obs = true := by
-  obtain ⟨_, hcase⟩ := run_cases h
+theorem struct_phase (inp : Input) (st : St) : structOk inp (phaseObs inp st) = true := by
+  have hcase := phase_cases inp st
+  generalize phaseObs inp st = obs at hcase ⊢
   have hfin : ∀ (P : Prop), (inp.sh.cfg = .none → ∀ s ∈ obs.steps, noAddr s = true) →
       (inp.sh.cfg != .none || obs.steps.all noAddr) = true := by
     intro _ hh
@@ -96,23 +97,23 @@ theorem struct_run {inp : Input} {obs : Obs} (h : run inp = some obs) : structOk
         rw [(tri_step (step_regNew inp.sh inp.w st)).2.2]
         refine ⟨?_, fun hc => callSpec_noAddr inp.sh inp.w true inp.sh.factory false st hc⟩
         rw [callSpec_kinds]
-        simp [callKindsBy, hrec]⟩) inp.k (initSt inp.sh inp.w) trivial
-    have hcalls : callsOf inp obs = (newCalls inp).2 := by simp [callsOf, hf, hsteps]
+        simp [callKindsBy, hrec]⟩) inp.k (st0 st) trivial
+    have hcalls : callsOf inp obs = (newCalls inp st).2 := by simp [callsOf, hf, hsteps]
     simp only [structOk, structOkBy, hcalls, hf, beq_self_eq_true, Bool.true_or, Bool.true_and, Bool.and_eq_true,
       List.all_eq_true, beq_iff_eq]
     refine ⟨fun s hs => (this.2 s hs).1, hfin True fun hc s hs => ?_⟩
     rw [hsteps] at hs
     exact (this.2 s hs).2 hc
   · -- `NewFactory` (+ calls)
-    obtain ⟨q1, q2, q3, q4⟩ := quad_proj (create_eq inp.sh inp.w inp.form.numOut (initSt inp.sh inp.w) (initSt_log _ _))
-    have hcreate : ∀ r : Res, (⟨(created inp).1.log.reverse, r⟩ : Step).evs.map kindOf =
-        createKindsBy fillFailed inp ⟨(created inp).1.log.reverse, r⟩ ∧
-        (inp.sh.cfg = .none → noAddr ⟨(created inp).1.log.reverse, r⟩ = true) := by
+    obtain ⟨q1, q2, q3, q4⟩ := quad_proj (create_eq inp.sh inp.w inp.form.numOut (st0 st) rfl)
+    have hcreate : ∀ r : Res, (⟨(created inp st).1.log.reverse, r⟩ : Step).evs.map kindOf =
+        createKindsBy fillFailed inp ⟨(created inp st).1.log.reverse, r⟩ ∧
+        (inp.sh.cfg = .none → noAddr ⟨(created inp st).1.log.reverse, r⟩ = true) := by
       intro r
       rw [q3]
       refine ⟨?_, fun hc => createSpec_noAddr inp.sh inp.w _ _ r hc⟩
       simp only [createKindsBy]
-      rw [createSpec_kinds inp.sh inp.w inp.form.numOut (initSt inp.sh inp.w) r]
+      rw [createSpec_kinds inp.sh inp.w inp.form.numOut (st0 st) r]
     have hshape : ∀ c calls, obs.steps = c :: calls →
         (c.evs.map kindOf = createKindsBy fillFailed inp c ∧ (inp.sh.cfg = .none → noAddr c = true)) →
         (∀ s ∈ calls, s.evs.map kindOf = callKindsBy fillFailed inp s ∧ (inp.sh.cfg = .none → noAddr s = true)) →
@@ -138,7 +139,7 @@ theorem struct_run {inp : Input} {obs : Obs} (h : run inp = some obs) : structOk
     · refine hshape _ _ hsteps (hcreate _) ?_
       have hfac' := hfac
       rw [q4] at hfac'
-      have hok := createSpec_facOk inp.sh inp.w inp.form.numOut (initSt inp.sh inp.w) fac hfac'
+      have hok := createSpec_facOk inp.sh inp.w inp.form.numOut (st0 st) fac hfac'
       have := iter_inv (step (callFac inp.sh inp.w fac)) (fun _ => True)
         (fun s => s.evs.map kindOf = callKindsBy fillFailed inp s ∧ (inp.sh.cfg = .none → noAddr s = true))
         (fun st _ => ⟨trivial, by
@@ -160,8 +161,96 @@ theorem struct_run {inp : Input} {obs : Obs} (h : run inp = some obs) : structOk
           · rw [(tri_step hh).2.2]
             refine ⟨?_, fun _ => facSpec_noAddr inp.sh inp.w rf _ st⟩
             rw [facSpec_kinds]
-            simp [callKindsBy, reconfigures, hf, hfa]⟩) inp.k (created inp).1 trivial
+            simp [callKindsBy, reconfigures, hf, hfa]⟩) inp.k (created inp st).1 trivial
       exact this.2
+
+theorem struct_run {inp : Input} {obs : Obs} (h : run inp = some obs) : structOk inp obs = true := by
+  rw [(run_eq_phase h).2]; exact struct_phase inp _
+
+/-! ### config and errors of a phase started in any state -/
+
+theorem config_phase (inp : Input) (st : St) (hB : SharedOk inp.sh inp.w st.heap) :
+    ∀ p ∈ products (phaseObs inp st).steps, SeenOk inp.sh inp.w p.seen := by
+  have hcase := phase_cases inp st
+  generalize phaseObs inp st = obs at hcase ⊢
+  intro p hp
+  simp only [products, List.mem_filterMap] at hp
+  obtain ⟨s, hs, hsp⟩ := hp
+  have hres : s.res = .ok p := by
+    unfold product? at hsp
+    split at hsp
+    · simp only [Option.some.injEq] at hsp; subst hsp; assumption
+    · simp at hsp
+  rcases hcase with ⟨_, hsteps, _⟩ | ⟨_, hn, _, hcr⟩
+  · rw [hsteps] at hs
+    have := iter_inv (step (regNew inp.sh inp.w)) (fun st => SharedOk inp.sh inp.w st.heap)
+      (fun s => ∀ p, s.res = .ok p → SeenOk inp.sh inp.w p.seen)
+      (fun st hI => by
+        obtain ⟨t1, _, t3⟩ := tri_step (step_regNew inp.sh inp.w st)
+        rw [t1, t3]
+        exact callSpec_config inp.sh inp.w true inp.sh.factory false st (.inl rfl) hI) inp.k (st0 st) hB
+    exact this.2 s hs p hres
+  · rcases hcr with ⟨e, _, hsteps⟩ | ⟨fac, hfac, hsteps, _⟩
+    · rw [hsteps] at hs
+      simp only [List.mem_singleton] at hs
+      subst hs
+      simp at hres
+    · rw [hsteps] at hs
+      simp only [List.mem_cons] at hs
+      rcases hs with rfl | hs
+      · simp at hres
+      · exact config_factory inp.sh inp.w inp.form.numOut inp.k hn (st0 st) rfl hB fac hfac s hs p hres
+
+theorem errors_phase (inp : Input) (st : St) : errorsOk inp (phaseObs inp st) = true := by
+  have hcase := phase_cases inp st
+  generalize phaseObs inp st = obs at hcase ⊢
+  rcases hcase with ⟨hf, hsteps, _⟩ | ⟨hf, hn, hpan, hcr⟩
+  · obtain ⟨h1, h2⟩ := errors_component inp.sh inp.w inp.k (st0 st)
+    simp only [errorsOk, hf, hsteps, h1, beq_self_eq_true, Bool.true_and, List.all_eq_true, Bool.and_eq_true,
+      Bool.not_eq_true']
+    exact h2
+  · have he := errors_factory inp.sh inp.w inp.form.numOut inp.k hn (st0 st) rfl
+    have hshape : ∀ c calls, obs.steps = c :: calls →
+        stepErrOk false c = true → (isMade c || isErr c) = true →
+        (if isMade c = true then (calls.length == inp.k) = true else calls.isEmpty = true) →
+        (∀ s ∈ calls, stepErrOk (inp.form == .facNoErr) s = true ∧ isMade s = false) →
+        errorsOk inp obs = true := by
+      intro c calls hst a1 a2 a3 a4
+      cases hform : inp.form with
+      | component => exact absurd hform hf
+      | facNoErr | facErr =>
+        rw [hform] at a4
+        simp only [errorsOk, hform, hst, a1, a2, Bool.true_and, Bool.and_eq_true, List.all_eq_true,
+          Bool.not_eq_true']
+        refine ⟨?_, a4⟩
+        split <;> simp_all
+    rcases hcr with ⟨e, hce, hsteps⟩ | ⟨fac, hfac, hsteps, _⟩
+    · rw [hce] at he
+      refine hshape _ _ hsteps he (by simp [isMade, isErr]) (by simp [isMade]) (by simp)
+    · rw [hfac] at he
+      obtain ⟨e1, e2, e3⟩ := he
+      refine hshape _ _ hsteps e1 (by simp [isMade]) (by simp [isMade, e2]) ?_
+      rw [hpan]
+      exact e3
+
+/-- the calls of a phase: k of them when it is `New`, or a factory made from a component constructor with a config -/
+theorem calls_length_phase (inp : Input) (st : St) (h : inp.form = .component ∨ (inp.sh.factory = false ∧ inp.sh.cfg ≠ .none)) :
+    (callsOf inp (phaseObs inp st)).length = inp.k := by
+  have hcase := phase_cases inp st
+  generalize phaseObs inp st = obs at hcase ⊢
+  rcases hcase with ⟨hf, hsteps, _⟩ | ⟨hf, hn, _, hcr⟩
+  · simp [callsOf, hf, hsteps, iter_length]
+  · rcases h with h | ⟨hfa, hc⟩
+    · exact absurd h hf
+    · obtain ⟨_, _, _, q4⟩ := quad_proj (create_eq inp.sh inp.w inp.form.numOut (st0 st) rfl)
+      have : (createSpec inp.sh inp.w inp.form.numOut (st0 st)).2.2.2 = .ok (.wrapPlugin inp.form.numOut) := by
+        simp [createSpec, hfa, hc]
+      rw [this] at q4
+      rcases hcr with ⟨e, he, _⟩ | ⟨fac, _, hsteps, _⟩
+      · rw [q4] at he; simp at he
+      · cases hform : inp.form with
+        | component => exact absurd hform hf
+        | facNoErr | facErr => simp [callsOf, hform, hsteps, iter_length]
 
 /-! ### the per-call structure, shared default configuration included -/
 
@@ -182,9 +271,10 @@ theorem callSpec_freshCall_any (sh : Shape) (w : World) (vf pan : Bool) (st : St
     fillFailed, ctorFailed, fillAddr?, ctorConf?, fillAddrEv, ctorConfEv, prodCell?, shownConf, capture, cellOf,
     List.countP_cons, List.countP_nil, List.findSome?_cons] at hc ⊢
 
-theorem percall_run {inp : Input} {obs : Obs} (h : run inp = some obs) (ha : percallApplies inp = true) :
-    percallOk inp obs = true := by
-  obtain ⟨_, hcase⟩ := run_cases h
+theorem percall_phase (inp : Input) (st : St) (ha : percallApplies inp = true) :
+    percallOk inp (phaseObs inp st) = true := by
+  have hcase := phase_cases inp st
+  generalize phaseObs inp st = obs at hcase ⊢
   simp only [percallApplies, Bool.and_eq_true, bne_iff_ne, ne_eq, Bool.or_eq_true, beq_iff_eq,
     Bool.not_eq_true'] at ha
   obtain ⟨hc, hform⟩ := ha
@@ -192,17 +282,17 @@ theorem percall_run {inp : Input} {obs : Obs} (h : run inp = some obs) (ha : per
   · have := iter_inv (step (regNew inp.sh inp.w)) (fun _ => True) (fun s => freshCallOk inp.sh inp.w s = true)
       (fun st _ => ⟨trivial, by
         rw [(tri_step (step_regNew inp.sh inp.w st)).2.2]
-        exact callSpec_freshCall_any inp.sh inp.w _ false st hc rfl⟩) inp.k (initSt inp.sh inp.w) trivial
-    have hcalls : callsOf inp obs = (newCalls inp).2 := by simp [callsOf, hf, hsteps]
+        exact callSpec_freshCall_any inp.sh inp.w _ false st hc rfl⟩) inp.k (st0 st) trivial
+    have hcalls : callsOf inp obs = (newCalls inp st).2 := by simp [callsOf, hf, hsteps]
     simp only [percallOk, hcalls, hf, beq_self_eq_true, Bool.true_or, Bool.true_and, List.all_eq_true]
     exact this.2
   · have hfa : inp.sh.factory = false := by
       rcases hform with hform | hform
       · exact absurd hform hf
       · exact hform
-    obtain ⟨q1, q2, q3, q4⟩ := quad_proj (create_eq inp.sh inp.w inp.form.numOut (initSt inp.sh inp.w) (initSt_log _ _))
-    have hcs : createSpec inp.sh inp.w inp.form.numOut (initSt inp.sh inp.w) =
-        ((initSt inp.sh inp.w).heap, (initSt inp.sh inp.w).next, [], .ok (.wrapPlugin inp.form.numOut)) := by
+    obtain ⟨q1, q2, q3, q4⟩ := quad_proj (create_eq inp.sh inp.w inp.form.numOut (st0 st) rfl)
+    have hcs : createSpec inp.sh inp.w inp.form.numOut (st0 st) =
+        ((st0 st).heap, (st0 st).next, [], .ok (.wrapPlugin inp.form.numOut)) := by
       simp [createSpec, hfa, hc]
     rw [hcs] at q3 q4
     rcases hcr with ⟨e, he, _⟩ | ⟨fac, hfac, hsteps, _⟩
@@ -214,8 +304,8 @@ theorem percall_run {inp : Input} {obs : Obs} (h : run inp = some obs) (ha : per
         (fun s => freshCallOk inp.sh inp.w s = true)
         (fun st _ => ⟨trivial, by
           rw [(tri_step (step_wrapPlugin inp.sh inp.w inp.form.numOut hn st hc)).2.2]
-          exact callSpec_freshCall_any inp.sh inp.w false _ st hc hfa.symm⟩) inp.k (created inp).1 trivial
-      have hcalls : callsOf inp obs = (facCalls inp (.wrapPlugin inp.form.numOut)).2 := by
+          exact callSpec_freshCall_any inp.sh inp.w false _ st hc hfa.symm⟩) inp.k (created inp st).1 trivial
+      have hcalls : callsOf inp obs = (facCalls inp st (.wrapPlugin inp.form.numOut)).2 := by
         cases hform' : inp.form with
         | component => exact absurd hform' hf
         | facNoErr => simp [callsOf, hsteps, hform']
@@ -224,5 +314,9 @@ theorem percall_run {inp : Input} {obs : Obs} (h : run inp = some obs) (ha : per
         rw [hsteps]; simp [q3]
       simp only [percallOk, hcalls, hhead, beq_self_eq_true, Bool.or_true, Bool.true_and, List.all_eq_true]
       exact this.2
+
+theorem percall_run {inp : Input} {obs : Obs} (h : run inp = some obs) (ha : percallApplies inp = true) :
+    percallOk inp obs = true := by
+  rw [(run_eq_phase h).2]; exact percall_phase inp _ ha
 
 end Pandora.Proofs.C18
